@@ -69,6 +69,13 @@ def _check_reads(res, r, cfg, exp, chdir, files, hist, rng, sig_prefix):
                 if not wl.arrays_equal(cfg, exp_arr, arr):
                     ok = False
                     break
+        # the arrays are the caller's now: it works on them in place (taper, detrend, zero).  No later read may show it
+        for v in got.values():
+            try:
+                if isinstance(v, np.ndarray) and v.size and v.flags.writeable:
+                    v[...] = np.zeros((), dtype=v.dtype)
+            except (ValueError, TypeError):
+                pass
         if not ok:
             first = s in {wl.file_start(cfg, f["ms"]) for f in files} or e in {wl.file_start(cfg, f["ms"]) for f in files}
             res.violation(sig_prefix + ("read-differs-range-edge-on-first-sample-of-file" if first else "read-differs"),
